@@ -134,6 +134,9 @@ impl WriteExt for Writer<&mut BytesMut> {
 
 impl<W: WriteExt + ?Sized> WriteExt for IoBufWriter<W> {
     fn reserve_with(&mut self, additional: usize) -> io::Result<&mut [MaybeUninit<u8>]> {
+        // the reserved bytes go to the inner writer directly, the bytes buffered by `write` must
+        // reach it before them
+        io::Write::flush(self)?;
         self.get_mut().reserve_with(additional)
     }
 
